@@ -42,6 +42,9 @@ class Check(PropertyCheck):
             if _i % 15 == 6:
                 yield slices.stale_ready_scenario(rng)
                 continue
+            if _i % 15 == 3:
+                yield Scenario(["new", f"mark customfilter {rng.randint(0, 10**6)}"], {"family": "custom_filter", "accepted": 3, "style": "custom_filter"})
+                continue
             if _i % 15 == 11:
                 yield Scenario(["new", f"mark raiser {rng.randint(0, 10**6)}"], {"family": "raiser", "accepted": 3, "style": "raiser"})
                 continue
@@ -54,6 +57,8 @@ class Check(PropertyCheck):
         res = []
         if line.startswith("mark raiser"):
             return oracles.raiser_episode(int(line.split()[2]))["C01"]
+        if line.startswith("mark customfilter"):
+            return oracles.custom_filter_episode(int(line.split()[2]))["C01"]
         if line.startswith("inst"):
             ctx["accepted"] = 0
         if line.startswith("reset"):
